@@ -625,6 +625,7 @@ func checkC15(r *verdict.Run) {
 	c15Sequences(r, tierPick(r, 200, 5000))
 	c15HelloMachine(r, tierPick(r, 8, 100))
 	c15HookReplies(r)
+	c15TestClientSessions(r)
 	r.Assume("two emulator instances fed the same commands are in the same state (the commands used are deterministic except where compared by shape)")
 }
 
@@ -692,4 +693,36 @@ func c15HookReplies(r *verdict.Run) {
 			r.Distinct("hook-reply/" + kind)
 		}
 	}
+}
+
+// c15TestClientSessions: the in-process test client (NewRedisTestClient / AdditionalClient) is a connection like any
+// other: a client made from a parent that has switched to RESP3 starts in RESP2 until its own HELLO, whenever it was
+// made. (The emulator host reports the Go type of the replies: a map under RESP3, an array under RESP2.)
+func c15TestClientSessions(r *verdict.Run) {
+	c, err := startChild(false)
+	if err != nil {
+		r.Inconclusive("cannot start child")
+		return
+	}
+	defer c.Stop()
+	out, err := c.Do(10*time.Second, "testclient")
+	if err != nil {
+		r.Inconclusive("infra: testclient: " + err.Error())
+		return
+	}
+	r.Eval(1)
+	f := map[string]string{}
+	for _, kv := range strings.Fields(out) {
+		if p := strings.IndexByte(kv, '='); p > 0 {
+			f[kv[:p]] = kv[p+1:]
+		}
+	}
+	want := map[string]string{"parent": "map", "made-before": "array", "made-after": "array", "made-after-own-hello3": "map"}
+	for k, w := range want {
+		if f[k] != w {
+			r.Report("c15/test-client/protocol-of-an-additional-client/"+k, fmt.Sprintf("in-process test client: HGETALL on the connection %q came back as %q, expected %q (parent switched to RESP3; additional clients made before and after that switch speak RESP2 until their own HELLO 3): %s", k, f[k], w, out), nil)
+			return
+		}
+	}
+	r.Distinct("test-client-sessions")
 }
